@@ -93,6 +93,15 @@ def ohe_rules(repo):
         # the sentinel tests precede the store
         ok = all(n.lineno < setst[0].lineno for n in rd_ifs)
         out.append((holds if ok else violation)("R-TABLE", r, role, "skip %d / raise %d / set" % (r_skip, r_raise), setst[0]))
+    role = "every character of the sequence is encoded (reader loops over the whole byte array)"
+    lp = [n for n in walk_no_nested(r.node) if isinstance(n, ast.For)]
+    t = unparse(lp[0].iter) if lp else ""
+    if t in ("range(len(seq))", "range(seq.shape[0])", "range(X_ohe.shape[0])"):
+        out.append(holds("R-TABLE", r, role, t, lp[0], nontrivial=False))
+    elif lp:
+        out.append(violation("R-TABLE", r, role, "loop runs over `%s`: trailing characters stay all-zero, i.e. decode as N" % t, lp[0]))
+    else:
+        out.append(unrecognised("R-TABLE", r, role, "loop not found"))
     # ignore overrides alphabet? overlap rejected first
     role = "a character in both alphabet and ignore is rejected before the table is built"
     chk = [n for n in w.node.body if isinstance(n, ast.For) and unparse(n.iter) == "ignore" and
@@ -157,6 +166,16 @@ def rc_rules(repo):
             out.append(violation("RC", fi, role, "string form does not reverse", sarm[0]))
         else:
             out.append(unrecognised("RC", fi, role, t[:120]))
+    role = "string form maps N to N when allow_N and rejects characters outside the map otherwise"
+    if sarm:
+        t = "\n".join(unparse(s_) for s_ in sarm[0].body)
+        ok = "elif char == 'N' and allow_N:\n        seq_rc.append('N')" in t and "raise ValueError" in t
+        if ok:
+            out.append(holds("RC", fi, role, "N -> N under allow_N, else ValueError", sarm[0], nontrivial=False))
+        elif "char == 'N'" not in t:
+            out.append(violation("RC", fi, role, "the string form has no N case: reverse_complement(reverse_complement(s)) fails for s containing N", sarm[0]))
+        else:
+            out.append(unrecognised("RC", fi, role, t[:160]))
     role = "tensor form: flip the position axis and permute rows by index(complement) of the same map"
     tarm = [n for n in walk_no_nested(fi.node) if isinstance(n, ast.If) and unparse(n.test) == "isinstance(seq, torch.Tensor)"]
     if not tarm:
